@@ -87,6 +87,15 @@ func (w *World) Infos() []*resource.Info {
 	if w.BANP != nil {
 		res = append(res, info(w.BANP.K8sB(), "policy.networking.k8s.io/v1alpha1", "BaselineAdminNetworkPolicy"))
 	}
+	for _, s := range w.Svcs {
+		res = append(res, s.Info())
+	}
+	for _, i := range w.Ings {
+		res = append(res, i.Info())
+	}
+	for _, r := range w.Routes {
+		res = append(res, r.Info())
+	}
 	return res
 }
 
